@@ -183,6 +183,11 @@ type workload struct {
 	Markers []int64 // end offsets of the shutdown markers written by clean closes
 }
 
+// workloadFailed: the workload's events are valid, so the database disagreeing
+// with the model while the file is produced is the code's failure (a
+// violation), not the tooling's.
+type workloadFailed string
+
 func buildWorkload(dir string, w wlSpec) *workload {
 	file := filepath.Join(dir, w.Name+".db")
 	s, err := drive.NewFile(file)
@@ -201,7 +206,7 @@ func buildWorkload(dir string, w wlSpec) *workload {
 	for _, ev := range w.events() {
 		wl.Events = append(wl.Events, ev.String())
 		if m := s.Apply(ev); m != "" {
-			lib.Infra("workload %s: %s", w.Name, m)
+			panic(workloadFailed(fmt.Sprintf("workload %s: while producing the database file the database disagreed with the model: %s", w.Name, m)))
 		}
 		switch ev.Kind {
 		case "persist":
@@ -867,7 +872,14 @@ func run(c *lib.Ctx) {
 	specs := workloadSpecs(!c.Quick())
 	total := 0
 	for _, sp := range specs {
-		wl := buildWorkload(dir, sp)
+		var wl *workload
+		if e := lib.Try(func() { wl = buildWorkload(dir, sp) }); e != nil {
+			if wf, ok := e.(workloadFailed); ok {
+				c.Fail("", caseID{Workload: sp.Name, L: -1}, "%s", string(wf))
+				return
+			}
+			panic(e)
+		}
 		if c.Shard == 0 {
 			c.Set("workload_"+wl.Name, map[string]any{"events": wl.Events, "file_size": wl.Size, "state_record_ends": wl.Ends,
 				"clean_close_ends": wl.Markers})
